@@ -188,11 +188,102 @@ def check_aes(pid, tier, replay=None):
 
 
 AES_THMS = {
+    "C07": ["IsalVerif.C07.C07", "IsalVerif.C07.C07_lazy", "IsalVerif.C07.C07_lazy_eq_eager", "IsalVerif.C07.C07_key"],
     "C02": ["IsalVerif.C02.C02_roundtrip", "IsalVerif.C02.C02_same_tag", "IsalVerif.C02.C02_tag_sizes", "IsalVerif.C02.C02_lengths"],
     "C03": ["IsalVerif.C03.C03_roundtrip", "IsalVerif.C03.C03_length", "IsalVerif.C03.C03_expanded_enc", "IsalVerif.C03.C03_expanded_dec"],
     "C04": ["IsalVerif.C04.C04_schedule_shape", "IsalVerif.C04.C04_dec_schedule", "IsalVerif.C04.C04_cbc_roundtrip",
             "IsalVerif.C04.C04_cbc_dec_schedule", "IsalVerif.C04.C04_cbc_by_groups"],
 }
+
+
+MH_PROPS = {
+    "C05": (["mh_sha1", "mh_sha256"], "IsalVerif.Props.C05",
+            ["IsalVerif.C05_sha1", "IsalVerif.C05_sha256", "IsalVerif.C05_cut_independent"]),
+    "C10": (["mh_sha1_murmur"], "IsalVerif.Props.C10", ["IsalVerif.C10", "IsalVerif.C10_bytes"]),
+}
+
+
+def check_mh(pid, tier, replay=None):
+    import subprocess
+    from concurrent.futures import ThreadPoolExecutor
+    algs, module, thms = MH_PROPS[pid]
+    chk = vlib.Check(pid, tier)
+    for name, detail in vlib.lean_obligations(chk, module, thms, extra_targets=["isal_model"]):
+        chk.violation("Lean obligation no longer checks: %s" % name, {"kind": "obligation", "obligation": name, "detail": detail}, no_input=True)
+    drv = vlib.harness_bin("drv_mh")
+    fams = ["base", "sse", "avx", "avx2", "avx512", "pub"]
+    if tier == "quick":
+        nops, maxlen, seeds = 1200, 5000, [chk.seed]
+    else:
+        nops, maxlen, seeds = 6000, 300000, [chk.seed * 100 + k for k in range(4)]
+    d = vlib.scratch()
+
+    def one(job):
+        alg, fam, seed, n = job
+        ops = os.path.join(d, "mops_%s_%s_%d_%d" % (alg, fam, seed, n)); res = os.path.join(d, "mres_%s_%s_%d_%d" % (alg, fam, seed, n))
+        rr = subprocess.run([drv, alg, fam, str(seed), str(n), str(maxlen), ops, res], capture_output=True, text=True)
+        if not os.path.exists(res):
+            return {"alg": alg, "fam": fam, "seed": seed, "n": n, "mons": ["CRASH exit=%d" % rr.returncode], "diffs": [], "ops": 0, "hist": {}, "sample": []}
+        with open(ops) as fh:
+            m = subprocess.run([vlib.MODEL_BIN], stdin=fh, capture_output=True, text=True)
+        lines = [l for l in open(res).read().split("\n") if l] + [l for l in (rr.stdout + "\n" + rr.stderr).split("\n") if l.startswith("MONITOR")]
+        mons = sorted(set(l for l in lines if l.startswith("MONITOR")))
+        il = [l for l in lines if not l.startswith(("MONITOR", "END", "SUMMARY"))]
+        ml = [l for l in m.stdout.split("\n") if l]
+        ol = open(ops).read().split("\n")
+        diffs = [{"line": i + 1, "op": ol[i] if i < len(ol) else "?", "impl": a[:160], "model": bb[:160]}
+                 for i, (a, bb) in enumerate(zip(il, ml)) if a != bb][:5]
+        if len(il) != len(ml):
+            diffs.append({"line": -1, "op": "length", "impl": str(len(il)), "model": str(len(ml))})
+        hist = {}
+        for l in ol:
+            t = l.split()
+            if t and t[0] == "U":
+                n_ = int(t[1])
+                k = "U:" + ("0" if n_ == 0 else "<1024" if n_ < 1024 else "=1024k" if n_ % 1024 == 0 else ">1024")
+                hist[k] = hist.get(k, 0) + 1
+            elif t:
+                hist[t[0]] = hist.get(t[0], 0) + 1
+        return {"alg": alg, "fam": fam, "seed": seed, "n": n, "mons": mons, "diffs": diffs, "ops": len(il), "hist": hist,
+                "sample": [ol[i] + " -> " + il[i][:70] for i in range(1, min(5, len(il)))]}
+
+    jobs = [(a, f, s, nops) for a in algs for f in fams for s in seeds]
+    with ThreadPoolExecutor(max_workers=16) as ex:
+        results = list(ex.map(one, jobs))
+    total, hist = 0, {}
+    for r in results:
+        key = "%s/%s" % (r["alg"], r["fam"])
+        total += r["ops"]
+        for k, v in r["hist"].items():
+            hist[k] = hist.get(k, 0) + v
+        okc = not r["mons"] and not r["diffs"]
+        chk.oblige("correspondence+monitor %s seed=%d" % (key, r["seed"]), okc, "ops=%d diffs=%d monitors=%d" % (r["ops"], len(r["diffs"]), len(r["mons"])))
+        if not okc:
+            # shrink: the op stream is seed-deterministic
+            lo, hi, best = 1, r["n"], r
+            while lo < hi:
+                mid = (lo + hi) // 2
+                rr = one((r["alg"], r["fam"], r["seed"], mid))
+                if rr["mons"] or rr["diffs"]:
+                    hi, best = mid, rr
+                else:
+                    lo = mid + 1
+            what = (best["mons"][0].split()[1] if best["mons"] and len(best["mons"][0].split()) > 1 else "digest differs from the Lean multi-hash definition")
+            chk.violation("%s in %s" % (what, key),
+                          {"kind": "history", "family": key, "args": [r["alg"], r["fam"], str(r["seed"]), str(hi), str(maxlen)],
+                           "monitor": best["mons"][:2], "failing_op": (best["diffs"] or [None])[0], "minimized": True},
+                          match={"family": key, "monitor": what})
+        if len(chk.samples) < 5 and r["sample"]:
+            chk.samples.append({"family": key, "ops": r["sample"]})
+    chk.cov["evaluations"] = total
+    chk.cov["distinct_nontrivial"] = len(hist) * len(set((r["alg"], r["fam"]) for r in results))
+    chk.cov["correspondence"] = {"calls": total, "input_histogram": hist}
+    chk.trusted = ["Lean 4.33.0 kernel; axioms propext, Classical.choice, Quot.sound",
+                   "hand-written model lean/IsalVerif/Impl/MhStream.lean (follows mh_*_update_base.c / _finalize_base.c / murmur3_x64_128_internal.c) tied by per-call correspondence",
+                   "block functions (mh_*_block_{base,sse,avx,avx2,avx512}) modelled as 16 independent compress chains; Spec/MultiHash.lean, Spec/Murmur3.lean"]
+    return chk.finish(level="proof", rule="episodes init/update*/finalize per (alg,family): update lengths clustered at 0,1,1023,1024,1025,2047,2048, "
+                      "multiples of 1024 and random, random alignment; context (total, partial length, 16 interim digests, murmur state) "
+                      "compared after every update, digest(s) after finalize")
 
 
 def check_c09(pid, tier, replay=None):
@@ -459,7 +550,7 @@ def check_c15(pid, tier, replay=None):
                       "digests/totals compared with the Lean model and the final digest with OpenSSL")
 
 
-CHECKS = {"C01": check_hash, "C06": check_hash, "C11": check_hash, "C15": check_c15, "C12": check_c12, "C09": check_c09,
+CHECKS = {"C01": check_hash, "C06": check_hash, "C11": check_hash, "C15": check_c15, "C12": check_c12, "C09": check_c09, "C05": check_mh, "C10": check_mh,
           "C02": check_aes, "C03": check_aes, "C04": check_aes, "C07": check_aes}
 
 
